@@ -400,6 +400,30 @@ def run_all(desc, tier, seed, res):
     res.sample({"bank": bankkey, "read_all_images": desc["images"], "values_in_bank": len(values)})
 
 
+def run_bad_addresses(res):
+    """Only short addresses (gear / device) or plain ints name a unit whose memory can be read: anything else is refused
+    with TypeError before a frame is sent."""
+    from dali import address
+    from models.bus import Bus
+    _mods()
+    bank_obj, values = value_classes("0")
+    name, cls, row = values[0]
+    for bad in (address.GearGroup(1), address.GearBroadcast(), address.DeviceGroup(2), address.DeviceBroadcast(), "3", None, 1.5,
+                address.InstanceNumber(1)):
+        for what, mk in (("read", lambda: cls.read(bad)), ("read_all", lambda: bank_obj.read_all(bad))):
+            bus = Bus([], bound=50)
+            res.evaluations += 1
+            res.hit("bad_addresses_refused")
+            try:
+                bus.run_sequence(mk())
+                res.violation("C09/bad-address-accepted", f"{what}({bad!r}) was accepted ({bus.n_commands} commands sent)", {"addr": repr(bad)})
+            except TypeError:
+                if bus.n_commands:
+                    res.violation("C09/bad-address-sent-commands", f"{what}({bad!r}): {bus.n_commands} commands were sent before refusing", {"addr": repr(bad)})
+            except Exception as e:
+                res.violation(f"C09/bad-address-wrong-exception/{type(e).__name__}", f"{what}({bad!r}) raised {type(e).__name__}: {e}", {"addr": repr(bad)})
+
+
 def run_interleaved(desc, seed, res):
     from props import pairs
     from models.bus import Bus
@@ -438,6 +462,7 @@ def run_shard(desc, tier, seed):
         run_single(desc, tier, seed, res)
     elif desc["kind"] == "interleaved":
         run_interleaved(desc, seed, res)
+        run_bad_addresses(res)
     else:
         run_all(desc, tier, seed, res)
     return res
